@@ -162,7 +162,8 @@ class C18(PoolCheck):
                 for i, op in enumerate(prog):
                     if op['api'] == 'poll':
                         try:
-                            results[t][i] = {'k': 'poll', 'v': [schema.built, schema.validation_attempted, schema.validity]}
+                            results[t][i] = {'k': 'poll', 'v': [schema.built, schema.validation_attempted, schema.validity,
+                                                                schema.maps.validation_attempted, schema.maps.validity]}
                         except Exception as exc:
                             results[t][i] = canon.canon_exc(exc)
                         continue
